@@ -169,3 +169,62 @@ PROPS["C11"] = dict(
         S("small-gomp-asan", "illdim", [], (460, 150), (4600, 300), env={"OMP_NUM_THREADS": "2"}),
     ],
 )
+
+C12_FAM = "mul,ech,ple,trsm,inv,solve,kernel"
+def _c12(cfg, q, t, **kw):
+    return S(cfg, "digest", ["--fam", C12_FAM, "--reps", "2"], q, t, **kw)
+PROPS["C12"] = dict(
+    level="exploration",
+    cross_digest=True,
+    rule="case = one seeded operand set (generators aim alternately at the regime boundaries of the small and of the host cache triple, identically in every build); "
+         "each build prints a 64-bit digest of the canonical output (product, RREF + rank, inverse, TRSM solution, solvability verdict, rank + column rank profile "
+         "for PLE/PLUQ, kernel dimension) and re-runs the case with 2 other admissible (k, cutoff, threshold) choices; oracle: digests equal across all builds and "
+         "parameter choices, and each build's result equals the model (names the culprit); distinct = (op class, set of regimes the builds were in); "
+         "non-trivial = the same input is in different regimes in at least two builds",
+    assumptions=MODEL + ["factors P,L,U,Q, kernel bases and solutions of singular systems are not unique and deliberately not digested",
+                         "cache triples sampled: 4K:32K:64K, 16K:256K:1M, 32K:1280K:54M"],
+    stages=[
+        _c12("small-asan", (900, 420), (12000, 1200)),
+        _c12("host-asan", (900, 420), (12000, 1200)),
+        _c12("mid-debug-asan", (900, 420), (12000, 1200)),
+        _c12("small-nosse-ts-asan", (900, 420), (12000, 1200)),
+        _c12("host-nosse-plain", (900, 420), (12000, 1200)),
+        _c12("host-gomp-asan", (900, 420), (12000, 1200), env={"OMP_NUM_THREADS": "4"}),
+        _c12("small-gomp-asan", (900, 420), (12000, 1200), env={"OMP_NUM_THREADS": "3"}),
+    ],
+)
+
+PROPS["C19"] = dict(
+    level="exploration",
+    exhaustive=True,
+    rule="finite domains enumerated completely: code book for k=1..16 (all 2^k entries: permutation, one-bit steps incl. wrap-around, increment == changed bit); "
+         "mzd_make_table for k=1..16 on random M, all 2^k patterns x: T[L[x]] == sum of the rows selected by x, masked from column c (k<=12 on several shapes/offsets); "
+         "m4ri_parity64 on all 64x64 single-bit inputs + 20000 random buffers; LEFT/RIGHT/MIDDLE bit masks for every length and offset (2209 combinations); "
+         "m4ri_swap_bits on all single-bit words + 10^5 random; spread/shrink for every length 1..16 (basis + random, inverse of each other, exact bit selection); "
+         "m4ri_lesser_LSB on all pairs of {0, 64 single bits, 75 random}; distinct = sub-check; every sub-check is non-trivial",
+    assumptions=["model implementations in harness/mon_gray.c (bit loops)"],
+    stages=[
+        S("small-asan", "gray", [], (62, 0), (400, 0)),
+        S("host-nosse-plain", "gray", [], (62, 0), (200, 0)),
+    ],
+)
+
+PROPS["C14"] = dict(
+    level="exploration",
+    rule="case = one history over {init(r,c), init_window(parent,...) incl. windows of windows, free(x)} checked against a shadow model: scripted histories "
+         "(17+ distinct freed sizes -> eviction; equal sizes -> exact-size reuse of a dirty block; sizes just below/at/above the caching threshold; >64, >1024 "
+         "simultaneously live headers; emptying a middle header block; zero-area matrices) and random ones (few or many distinct sizes, 200-5000 steps); oracles: "
+         "fresh matrix entirely zero incl. rowstride padding, storage and headers disjoint from every live object, id-derived canaries of all live matrices intact, "
+         "windows alias their parent's canary, block cache holds no live/duplicate/NULL block, header pool count (hook) == shadow count, after freeing everything in "
+         "random order and m4ri_fini() the interposer's live set is empty; ASan catches use-after-free/double free in the caches; "
+         "distinct = (build, history kind, length bucket); every history is non-trivial (reaches reuse / eviction / second header block / unlink / fallback, tagged)",
+    assumptions=["shadow model and canary stream in harness/mon_alloc.c", "allocator interposer sees every allocation request of the library"],
+    stages=[
+        S("small-asan", "alloc", [], (400, 0), (12000, 0)),
+        S("small-nosse-ts-asan", "alloc", [], (200, 0), (6000, 0)),
+        S("host-asan", "alloc", [], (72, 0), (1500, 0), timeout=600),
+        S("small-gomp-asan", "alloc", [], (100, 0), (2000, 0), env={"OMP_NUM_THREADS": "2"}),
+    ],
+    require_tags={"quick": ["reuse", "eviction", "headers>64", "headers>1024", "unlink", "zero-area", "window", "below-threshold", "above-threshold"],
+                  "thorough": ["reuse", "eviction", "headers>64", "headers>1024", "unlink", "zero-area", "window", "below-threshold", "above-threshold"]},
+)
